@@ -22,6 +22,7 @@ from vlib.spec import S, build, deep_copy, dump_node, jsonable, preorder, real_p
 from vlib.universe import core_universe
 
 LEVEL = "exploration"
+TYPECHECK_OK = True  # every generated value conforms to its annotation: shards may run with RUNTIME_TYPE_CHECK on
 RULE = (
     "cases = (tree, format, options, alive-subset): trees over the core universe with hostile property values (empty, "
     "YAML-hostile, control and astral characters, multi-line strings, ints at the 64-bit boundaries, extreme finite floats, "
